@@ -239,7 +239,7 @@ def run(chk):
                       "comparison is scale free and squares the threshold with the distance; energies are stored with a dtype of their own", 3)
     chk.rule("R19.3", "orientation: in-plane basis (a, n x a), ascending atan2(v, u), fan triangulation (f0, f_i, f_i+1)", 6)
     chk.rule("R19.5", "symmetry expansion of the input planes keeps, for every direction, the lowest energy seen for THAT direction: a direction's "
-                      "entry is replaced under a test on that same direction's entry", 2)
+                      "entry is replaced under a test on that same direction's entry", 1)
     if chk.want("R19.5") and "expand_symmetry_related_planes" in w.funcs:
         fn_ = w.expanded("expand_symmetry_related_planes", w.funcs["expand_symmetry_related_planes"])
         chk.saw(W, "expand_symmetry_related_planes")
